@@ -1,0 +1,37 @@
+//go:build verif
+
+// Contracts and ghost/spec functions for package regex, read by the /verif
+// condition generator (govc). Compiled only with -tags verif; adds no behaviour.
+//
+// The reglemma lines are regular-language obligations over the pattern literals of
+// definitions.go as they are in the current source (recompiled on every run).
+package regex
+
+// ---- C07: every definable name is referable and vice versa
+//@ reglemma[C07] definition-name-grammar: equal(group(regex.DefinitionRegex, 2), group(regex.DefinitionReferenceRegex, 1))
+
+// ---- C18: the accepted rule-argument grammar is exactly NNNNNN[-chainK][.ra]
+//@ reglemma[C18] rule-argument-grammar: equal(match(regex.RuleIdFileNameRegex), full(`[0-9]{6}(-chain[0-9]+)?(\.ra)?`))
+
+// ---- C15: renumber-tests rewrites only NNNNNN.yaml / NNNNNN.yml
+//@ reglemma[C15,C13] test-file-name-filter: subset(match(regex.RuleIdTestFileNameRegex), full(`[0-9]{6}\.ya?ml`))
+
+// ---- C11: chained rules are counted by lines whose first token is SecRule
+//@ reglemma[C11,C12] secrule-line: subset(match(regex.SecRuleRegex), full(`\s*SecRule(\s.*)?`), lines)
+
+// ---- C14: whatever version the write side accepts, the read side matches in full.
+// semver.semVerRegex is the constant of the Masterminds/semver module compiled in
+// (read from its type information); NewVersion accepts a subset of it.
+//@ reglemma[C14] secrule-ver-reads-all-versions: subset(full(semver.semVerRegex), group(regex.CRSYearSecRuleVerRegex, 2))
+//@ reglemma[C14] component-signature-reads-all-versions: subset(full(semver.semVerRegex), group(regex.CRSVersionComponentSignatureRegex, 2))
+//@ reglemma[C14] header-version-reads-all-versions: subset(full(semver.semVerRegex), group(regex.CRSVersionRegex, 3))
+//@ reglemma[C14] version-has-digits: subset(full(semver.semVerRegex), match(`[0-9]`))
+//@ reglemma[C14] version-cannot-break-template: disjoint(full(semver.semVerRegex), match(`[$}'"\\\s]`))
+//@ reglemma[C14] year-pattern-is-four-digits: equal(group(regex.CRSCopyrightYearRegex, 2), full(`[0-9]{4}`))
+
+// ---- C10: formatter and compiler agree on what a block start is (kind and arguments)
+//@ reglemma[C10] block-start-kind: subset(match(regex.ProcessorBlockStartRegex), full(`##!>\s*(assemble|cmdline)(\s.*)?`), lines)
+// a comment (for the compiler) is never rewritten by a directive branch of the formatter
+//@ reglemma[C10] comment-not-directive: disjoint(match(regex.CommentRegex), or(match(regex.ProcessorBlockStartRegex), match(regex.ProcessorEndRegex), match(regex.FlagsRegex), match(regex.PrefixRegex), match(regex.SuffixRegex), match(regex.DefinitionRegex), match(regex.IncludeRegex), match(regex.IncludeExceptRegex)), lines)
+// formatter's block end == compiler's block end; block start/end never overlap the line-level directives
+//@ reglemma[C10] block-markers-vs-line-directives: disjoint(or(match(regex.ProcessorBlockStartRegex), match(regex.ProcessorEndRegex)), or(match(regex.FlagsRegex), match(regex.PrefixRegex), match(regex.SuffixRegex), match(regex.DefinitionRegex), match(regex.IncludeRegex), match(regex.IncludeExceptRegex)), lines)
